@@ -200,16 +200,18 @@ PROPS["C17"] = {
 
 PROPS["C06"] = {
     "title": "Every module built with the Builder survives assemble-then-load unchanged",
-    "units": {"quick": ["builder_sections", "builder_core", "loader"], "thorough": ["builder_sections", "builder_core", "loader", "assemble"]},
+    "units": {"quick": ["builder_sections", "builder_ops", "builder_core", "loader", "method_sweep"], "thorough": ["builder_sections", "builder_ops", "builder_core", "loader", "assemble", "method_sweep"]},
     "only_items": {"loader": [r"Loader::consume_instruction"]},
+    "engines": ["verus", "replay-bounded"],
     "level": "proof",
-    "technique": "one Verus obligation per instruction-emitting Builder method (1147): the place its real text puts the instruction equals the loader's proved dispatch for that opcode; Builder::module bound/version contract; hand-written methods' emitted instruction shapes",
-    "design_ref": "DESIGN.md §4 C06",
-    "explanation": "For each of the 1147 Builder methods that emit one opcode, an obligation states that the section / block / terminator position read off the "
-                   "method's real text is where the loader's dispatch specification (proved for the real loader in C05) files that opcode. builder_core "
-                   "proves the bound written by module(), the instruction shapes of the hand-written methods and that terminators close the block. "
-                   "NOT proved in this revision: operand vectors of the 1012 generated norm_insts / 64 type / 28 terminator methods against the grammar rows, "
-                   "and the end-to-end composition lemma (assemble then load returns the same module).",
+    "technique": "Verus: one placement obligation per instruction-emitting Builder method (1147, builder_sections) and one operand-order obligation per generated method (1096, builder_ops: lifted operand constructions vs the real grammar row, by(compute_only)); Builder::module bound/version contract; hand-written methods' emitted shapes; plus a bounded replay sweep calling every generated method once and round-tripping the module",
+    "design_ref": "DESIGN.md §4 C06, §9.7",
+    "explanation": "builder_sections: for each of the 1147 Builder methods that emit one opcode, the section / block / terminator position read off the method's real text is where the "
+                   "loader's dispatch specification (proved for the real loader in C05) files that opcode. builder_ops: for each of the 1096 generated methods, the operand constructions lifted "
+                   "from its text (required / optional / variadic / pair / extra parameters, in program order, parameters in signature order, result type / result id presence) equal the shape of the "
+                   "opcode's real INSTRUCTION_TABLE row. builder_core proves the bound written by module(), the instruction shapes of the hand-written methods and that terminators close the block. "
+                   "method_sweep (BOUNDED, one argument vector per method) calls every generated method on the real Builder inside a complete history and compares module() with load_words(assemble()). "
+                   "NOT proved: the end-to-end composition lemma (assemble then load returns the same module) over arbitrary histories and argument values.",
     "assumptions": [],
 }
 
